@@ -54,10 +54,20 @@ func (g *Generator) generateMethodFunction(obj *tlparser.Method) jen.Code {
 
 	// what is returned next to a non-nil error: the zero value of the response type
 	zero := jen.Nil()
-
-	// Bool is decoded by MakeRequest into a plain bool (there is no object wrapper for it)
-	if obj.Response.Type == "Bool" && !obj.Response.IsList {
-		zero = jen.False()
+	if !obj.Response.IsList {
+		switch obj.Response.Type {
+		case "Bool":
+			// Bool is decoded by MakeRequest into a plain bool (there is no object wrapper for it)
+			zero = jen.False()
+		case "int", "long", "double":
+			zero = jen.Lit(0)
+		case "string":
+			zero = jen.Lit("")
+		default:
+			if _, isEnum := g.schema.Enums[obj.Response.Type]; isEnum {
+				zero = jen.Lit(0)
+			}
+		}
 	}
 
 	responses := []jen.Code{resp, jen.Error()}
